@@ -383,5 +383,22 @@ Definition oracle_errors (b : bytes) (sc : nat -> option err) (out : list N) : l
       end
   end.
 
+(* C16/C17, any callback behaviour: the calls are the specification's calls cut at the stop, and the
+   returned tree has exactly the specification's leaves (UpdateErrProofs.decode_errors_exact) *)
+Fixpoint all2 {A} (f : A -> A -> bool) (a b : list A) : bool :=
+  match a, b with
+  | [], [] => true
+  | x :: a', y :: b' => f x y && all2 f a' b'
+  | _, _ => false
+  end.
+Definition oracle_events (b : bytes) (sc : nat -> option err) (out : list N) : list N :=
+  match rd_decode_out out with
+  | None => obad 5
+  | Some (cs, e) =>
+      if negb (calls_eqb cs (spec_calls_script sc b)) then obad 1 else
+      if all2 (fun x y => beqb (tok_err x) (tok_err y)) (oleaves e) (flat_map leaves (spec_err_events sc b))
+      then ook else obad 2
+  end.
+
 Definition oracle_unfe (e : option err) (out : list N) : list N :=
   if beqb out (tok_onotif (spec_unfe e)) then ook else obad 1.
